@@ -93,6 +93,7 @@ type Stats struct {
 	SelectBlock int64
 	SelectMulti int64 // selects that had more than one ready case (determinised)
 	Preemptions int64
+	Trace       []string `json:"-"`
 }
 
 // PanicInfo records an unrecovered panic in a task (the process would have crashed).
@@ -210,6 +211,7 @@ func Run(t *testing.T, cfg Config, main func(s *Sim)) (st Stats, panics []PanicI
 		s.stats.TraceHash = s.hash
 		s.stats.Steps = s.step
 		st = s.stats
+		st.Trace = s.trace
 		panics = s.panics
 	}
 	return st, panics, bubbleErr
@@ -681,6 +683,9 @@ func (s *Sim) run(maxSteps int64, d time.Duration, cond func() bool) SettleResul
 		s.mix(t.site)
 		if s.cfg.Trace {
 			s.trace = append(s.trace, fmt.Sprintf("%6d t=%-12v %-28s %s", s.step, time.Since(s.start), t.ID, t.site))
+			if len(s.trace) > 400000 {
+				s.trace = append([]string{"... (trace truncated)"}, s.trace[200000:]...)
+			}
 		}
 		t.state = stRunning
 		s.compact()
